@@ -14,14 +14,14 @@ structure Buffer where
   inplace : Bool          -- `_update` mutates the array object in place
   liveInState : Bool      -- `state` hands out (a view of) the live array
   aliasedByLoad : Bool    -- `set_state` keeps (a view of) the caller's array
-deriving DecidableEq, Repr
+deriving DecidableEq
 
 /-- An entry of `_initial_proposal_params`. -/
 structure ResetBuf where
   attr : String
   inplace : Bool
   resetAliases : Bool     -- after `_reset_adaptation` the live attribute *is* the stored initial array
-deriving DecidableEq, Repr
+deriving DecidableEq
 
 structure Family where
   name : String
@@ -41,14 +41,14 @@ structure Family where
   resetStartStep : Bool        -- reset sets `start_step = nsteps`
   buffers : List Buffer
   resets : List ResetBuf
-deriving DecidableEq, Repr
+deriving DecidableEq
 
 structure Site where
   file : String
   func : String
   line : Nat
   kind : String
-deriving DecidableEq, Repr
+deriving DecidableEq
 
 /-! ### Decidable side conditions of the general theorems -/
 
